@@ -207,7 +207,7 @@ def rich_part(pid="P1", divs=4):
              ("t0", 11 * q, q * 2 // 3 if (q * 2) % 3 == 0 else q, "A", None, 4, 1, 1),
              ]
     if (2 * q) % 3 == 0:
-        u = 2 * q // 3
+        u = q // 3  # three triplet eighths fill the last quarter of the last measure
         notes[-1] = ("t0", 11 * q - 0, u, "A", None, 4, 1, 1)
         notes += [("t1", 11 * q + u, u, "B", None, 4, 1, 1), ("t2", 11 * q + 2 * u, u, "C", 1, 5, 1, 1)]
         notes = [n for n in notes if n[0] != "n4t"] + [("n4t", 9 * q, 2 * q, "F", None, 4, 1, 1)]
@@ -218,6 +218,14 @@ def rich_part(pid="P1", divs=4):
                       graces=[("g0", 3 * q, "C", 1, 5, 1, 1, "n2")], key=(-1, "major"),
                       clefs=[(0, 1, "G", 2), (0, 2, "F", 4)], measures=[(0, q), (q, 5 * q), (5 * q, 9 * q), (9 * q, 12 * q)],
                       extra=lambda p, b: extra(p, b) if "t2" in b else None)
+    # notes that carry markings of both kinds (lists owned by the note), of one kind only, and none
+    for n in part.iter_all(sc.Note):
+        if n.id == "n2":
+            n.articulations, n.ornaments = ["accent", "staccato"], ["trill-mark"]
+        elif n.id == "n3":
+            n.articulations = ["tenuto"]
+        elif n.id == "b1":
+            n.ornaments = ["mordent"]
     return part
 
 
